@@ -155,11 +155,15 @@ def expectation(L, corrupt):
     return "good" if corrupt == "ok" else "bad"
 
 
+LONG = (1024, 1023, 1022, 1021, 1020, 513, 512, 511, 256)     # top of the data_length range and the byte counter's upper bits
+
+
 def configs(tier):
     if tier == "quick":
-        return [dict(L=L, k=1, variants=1) for L in range(10)]
+        return [dict(L=L, k=1, variants=1) for L in range(10)] + [dict(L=1024, k=1, variants=1)]
     # thorough: two runs of not-valid words per packet (payload pattern 0), and one run with three tails and two payload patterns
-    return [dict(L=L, k=2, variants=1) for L in range(10)] + [dict(L=L, k=1, variants=2) for L in range(10)]
+    return ([dict(L=L, k=2, variants=1) for L in range(10)] + [dict(L=L, k=1, variants=2) for L in range(10)] +
+            [dict(L=L, k=1, variants=1) for L in LONG])
 
 
 # slot = (expect, reason, payload, L, phase, verdict, got, behind_bare_header)     phase 0 header, 1 window open, 2 CRC complete
@@ -172,23 +176,36 @@ class DataRxSpec(Spec):
         # safety nets only (a quick config has < 1000 states and needs 10-20 s of CPU); the state cap is the deterministic one
         self.time_budget = 900
         self.max_states = 20000 if tier == "quick" else 200000
-        tails = (0, 5) if (tier == "quick" or k >= 2) else (0, 1, 5)
+        tails = (0, 5) if (tier == "quick" or k >= 2 or L > 9) else (0, 1, 5)
         n = n_words(L)
-        single = [(p, g, f) for p in range(1, n + 1) for g in (1, 2) for f in "zs"]
+        if L > 9:
+            # long packets (maximum size and neighbours): a small menu - ok / CRC-32 corrupt / K symbol in the last payload
+            # byte / header CRC-16 corrupt, no gap or one not-valid word before the first, a middle and the last payload word and
+            # the CRC word (thorough: also before DW3 and behind the packet, both flavours everywhere); the other long lengths and
+            # some short ones as context traffic
+            ws = packet_words(L, 0, "ok")
+            crcword = next(i for i, w in enumerate(ws) if w[2] and "crc" in w[2])
+            pos = sorted({6, 6 + (L // 4) // 2, 5 + (L + 3) // 4, crcword} | ({4, n} if tier != "quick" else set()))
+            single = [(p, 1, f) for p in pos for f in ("zs" if (tier != "quick" or p == crcword) else "z")]
+            corrupts = ("ok", "crc32", "kl", "hcrc16")
+            context = [l for l in (LONG if tier != "quick" else (1023, 1020, 512)) if l != L] + [0, 1, 4]
+        else:
+            single = [(p, g, f) for p in range(1, n + 1) for g in (1, 2) for f in "zs"]
+            corrupts = CORRUPTS
+            context = [l for l in range(10) if l != L]
         gapsets = [()] + [(g,) for g in single]
         if k >= 2:
             second = [(p, 1, "z") for p in range(1, n + 1)]
             gapsets += [(a, b) for a in single for b in second if b[0] > a[0]]
         acts = []
         for var in range(nv):
-            for c in CORRUPTS:
+            for c in corrupts:
                 if L == 0 and c in ("data", "k0", "kl"): continue
                 if L == 1 and c == "kl": continue
                 for gs in gapsets:
                     for t in tails:
                         acts.append(("pkt", L, var, c, gs, t))
-        for L2 in range(10):                                         # context traffic of the other lengths
-            if L2 == L: continue
+        for L2 in context:                                           # context traffic of the other lengths
             for c in ("ok", "crc32"):
                 for t in (0, 5):
                     acts.append(("pkt", L2, 0, c, (), t))
@@ -218,7 +235,8 @@ class DataRxSpec(Spec):
                 "a not-valid word carries zeroes or a stale copy of the previous word",
                 "a header with a wrong CRC-16/CRC-5 may be answered by packet_bad or by silence (statement open); never by packet_good",
                 f"a verdict is accepted from the DW3 word of the header until {VERDICT_SLACK} cycles behind the packet's last word",
-                "payload 0-9 bytes, one corruption per packet, at most k runs of 1-2 not-valid words per packet"]
+                "payload 0-9 bytes with the full menu, and 256/511-513/1020-1024 bytes with a reduced menu; one corruption per "
+                "packet, at most k runs of 1-2 not-valid words per packet"]
 
     def goals(self):
         return ["pkt:good-expected", "pkt:bad-expected", "pkt:bad-header", "gap", "gap:before-crc-word", "back-to-back", "verdict:seen"]
@@ -238,6 +256,17 @@ class DataRxSpec(Spec):
         prev, ttl, cs = st
         o = cur.step_vec(vec)
         if tag is None and not (o.svalid or o.good or o.bad):          # fast path: nothing to account for
+            if prev is not None:
+                ttl -= 1
+                if ttl <= 0:
+                    self._close(prev, "window end"); prev = None; ttl = 0
+            return (prev, ttl, cs)
+        if tag is None and not (o.good or o.bad) and cs is not None and cs[4] >= 1:      # fast path: plain payload word
+            bs = o.sdata.to_bytes(4, "little") if o.svalid == 15 else bytes((o.sdata >> (8 * i)) & 0xFF for i in range(4) if (o.svalid >> i) & 1)
+            got = cs[6] + bs
+            if len(got) > cs[3]:
+                raise Violation("payload:more-than-data-length", dict(data_length=cs[3], bytes_seen=got.hex()))
+            cs = cs[:6] + (got,) + cs[7:]
             if prev is not None:
                 ttl -= 1
                 if ttl <= 0:
